@@ -270,12 +270,11 @@ inductive EditErr | noneNotAllowed
 deriving DecidableEq, Repr
 
 /-- `CellsImpl.set_value_from_key` from outside any formula, recalculation option off.
-Note the order: the old value and its dependents are cleared *before* `_store_value` may
-reject `None`. -/
+`None` where it is not allowed is rejected before anything is cleared. -/
 def St.setValue (env : Env) (s : St) (n : Node) (v : Val) : St × Option EditErr :=
-  let s1 := s.clearValueAt n true
-  if v = .none && !env.allowNone n.1 then (s1, some .noneNotAllowed)
+  if v = .none && !env.allowNone n.1 then (s, some .noneNotAllowed)
   else
+    let s1 := s.clearValueAt n true
     let s2 := { s1 with data := insert s1.data n v }
     let s3 := s2.addNode (.elem n)
     ({ s3 with inputs := if s3.inputs.contains n then s3.inputs else s3.inputs ++ [n] }, none)
